@@ -25,7 +25,7 @@ grows by exactly one normalization record (original, replacement, line, column) 
 nothing otherwise.  Holds for every state and input on which the branch is taken. -/
 theorem C07_pattern_step_receipt (env : Env) (lenient : Bool) (st : LState) (c : Char) (r : Str) (m : Match)
     (hspan : atSpanStart st = false) (hc : c ≠ ' ')
-    (hm : matchPattern env (st.pos == 0) st.prev (c :: r) = .ok (some m))
+    (hm : matchPattern env st.blank st.prev (c :: r) = .ok (some m))
     (hopen : m.type ≠ .listEnd) (hnl : m.type ≠ .listStart) :
     ∃ st', step env lenient st (c :: r) = .ok (st', m.rest)
       ∧ st'.toks = { type := m.type, value := m.value, line := st.line, col := st.col, normFrom := m.normFrom, raw := m.raw } :: st.toks
